@@ -122,6 +122,7 @@ def run_decoder(P, fn, length, extra_args, tag, ctx, R, incomplete_code, html=Fa
 
 
 def run(ctx):
+    import itertools as _it8
     ctx.level = 'proof'
     ctx.explanation = ('Abstract interpretation of the decoder / validator sources over boxes of input bytes (value sets and strided intervals, boxes bisected wherever the code or the '
                        'reference distinguishes values): for every box the verdict, the code-point set and the number of bytes consumed are compared with the RFC 3629 table. '
@@ -147,7 +148,7 @@ def run(ctx):
     ctx.floor(R1, 15)
 
     # ---------------- R2 single-byte validators
-    R2 = ctx.rule('C14.R2', 'single-byte validators: printable ASCII accepted, C0 controls (except TAB/LF/CR) and DEL rejected, ISO-8859 C1 range rejected, one count per byte, no context')
+    R2 = ctx.rule('C14.R2', 'single-byte validators: the accepted byte set equals the defined non-control characters of each code page the validator serves (reference: the codec tables of the Python standard library, Unicode category Cc excluded, TAB/LF/CR included), one count per byte, no context')
     vals = sorted([f for f in P.fns.values() if f.bname.startswith('cppcms::encoding::') and f.short.endswith('_valid') and f.short != 'utf8_valid'], key=lambda g: g.id)
     ctx.require(len(vals) >= 16, 'C14.R2: validator instantiations not found (%d)' % len(vals))
 
@@ -184,6 +185,13 @@ def run(ctx):
                 bad.append(([(v, v)], 'C1 control accepted by an ISO-8859 validator'))
             if fn.short == 'ascii_valid' and v >= 0x80 and a:
                 bad.append(([(v, v)], 'non-ASCII byte accepted as ASCII'))
+        pages = _CODE_PAGES.get(fn.short)
+        ctx.require(pages is not None, 'C14.R2: no reference code page known for validator %s' % fn.short)
+        for cp in pages:
+            ref = _defined_text_bytes(cp)
+            got = set(v for v in range(256) if acc.get(v))
+            for v in sorted(got ^ ref)[:3]:
+                bad.append(([(v, v)], ('byte is undefined in %s (or a control) but accepted' % cp) if v in got else ('byte is a defined character of %s but rejected' % cp)))
         ctx.check(not bad, R2, '%s:single-byte-classes' % fn.short, ('byte %02X: %s' % (bad[0][0][0][0], bad[0][1])) if bad else '', fn.where,
                   detail={'boxes': nb, 'accepted': _ranges([v for v in range(256) if acc.get(v)])})
     if ctx.tier == 'thorough':
@@ -504,6 +512,252 @@ def run(ctx):
     ctx.check(nlim >= 2, R7, 'validate:both-limits-found', 'expected the lower and the upper limit comparison in base_text::validate', vd.where)
     ctx.floor(R7, 7)
 
+    # ---------------- R9 dispatch by encoding name, the single-byte filter, name comparison
+    R9 = ctx.rule('C14.R9', 'dispatch and single-byte filtering: valid_utf8 / valid(name) / valid(locale) hand (begin,end,count) unchanged to the validator registered for the name and return its verdict; an unregistered '
+                            'name is converted to UTF-8 with method stop, validated as UTF-8, conversion errors mean invalid; the single-byte filter (validator summarised per byte as good / bad, E3 over every '
+                            'good/bad string of length 0..4) returns true and leaves the output alone iff every byte is good, else the output is exactly the good bytes with each bad byte replaced or dropped, asking '
+                            'the validator once per byte inside the range; encoding names compare equal iff their lower-cased alphanumeric characters agree (E3 over a name grid)')
+    from vlib.absint import FnRef
+    ENC = 'cppcms::encoding::'
+    vu = PE.fn(ENC + 'valid_utf8')
+    cu = [i for i in vu.calls() if q.short_of(vu.callee(i) or '') == 'utf8_valid']
+    rets = [i for i in vu.all_nodes() if vu.N(i)['k'] == 'ReturnStmt']
+    ctx.check(len(cu) == 1 and [vu.ref_of(x) for x in vu.args(cu[0])] == [q.param_by_index(vu, k) for k in range(3)] and len(rets) == 1 and vu.strip(vu.N(rets[0])['ch'][0]) == cu[0], R9,
+              'valid_utf8:returns-utf8_valid(begin,end,count)', 'valid_utf8 does not return the verdict of the html-safe UTF-8 validator on its own arguments', vu.where)
+    vmain = vf
+    ctx.require(vmain is not None, 'C14.R9: encoding::valid(std::string const&, ...) not found')
+    for f in [g for g in PE.by_bname.get(ENC + 'valid', []) if g is not vmain and len(g.params) == 4]:
+        cs_ = [i for i in f.calls() if f.N(i).get('callee') == vmain.id]
+        rets = [i for i in f.all_nodes() if f.N(i)['k'] == 'ReturnStmt']
+        okf = len(cs_) == 1 and [f.ref_of(x) for x in f.args(cs_[0])[1:]] == [q.param_by_index(f, k) for k in (1, 2, 3)] and q.param_by_index(f, 0) in f.subtree_refs(f.args(cs_[0])[0]) and \
+            len(rets) == 1 and f.strip(f.N(rets[0])['ch'][0]) == cs_[0]
+        ctx.check(okf, R9, 'valid(%s):forwards-to-valid(name)' % (f.types[f.params[0]['t']] or '')[:18].strip(), 'does not return valid(name, begin, end, count) for its own arguments', f.where)
+    f = vmain
+    P0, P1, P2, P3 = [q.param_by_index(f, k) for k in range(4)]
+    gets = [i for i in f.calls() if q.short_of(f.callee(i) or '') == 'get' and 'validators_set' in (f.callee(i) or '')]
+    byname = [i for i in gets if f.ref_of(f.args(i)[0]) == P0]
+    tv = [d['ref'] for i in f.all_nodes() if f.N(i)['k'] == 'DeclStmt' for d in f.N(i)['decls'] if d.get('init') is not None and any(f.contains(d['init'], g_) or f.strip(d['init']) == g_ for g_ in byname)]
+    ind = [i for i in f.all_nodes() if f.N(i)['k'] == 'CallExpr' and not f.N(i).get('callee')]
+    direct = [i for i in ind if tv and f.ref_of(f.N(i)['ch'][0]) == tv[0]]
+    g_nonnull = f.gate_edges(lambda atom, pol: bool(tv) and f.ref_of(atom) == tv[0] and pol is True) + f.gate_edges(
+        lambda atom, pol: bool(tv) and f.N(atom)['k'] == 'BinaryOperator' and f.N(atom).get('op') in ('!=', '==') and tv[0] in f.subtree_refs(atom) and f.const_value(f.N(atom)['ch'][1]) == 0 and pol is (f.N(atom)['op'] == '!='))
+    okd = len(byname) == 1 and len(tv) == 1 and len(direct) == 1 and [f.ref_of(x) for x in f.args(direct[0])] == [P1, P2, P3] and bool(g_nonnull) and f.only_through(direct[0], g_nonnull) and \
+        any(f.N(i)['k'] == 'ReturnStmt' and f.strip(f.N(i)['ch'][0]) == direct[0] for i in f.all_nodes())
+    ctx.check(okd, R9, 'valid(name):registered-validator-decides', 'the validator registered under the name is not the one that is asked about (begin,end,count), or its verdict is not returned', f.where)
+    conv = [i for i in f.calls() if (f.callee(i) or '').startswith('booster::locale::conv::between')]
+    okc = len(conv) == 1
+    if okc:
+        a_ = f.args(conv[0])
+        lit = [f.N(j).get('s') for j in f.walk(a_[2]) if f.N(j)['k'] == 'StringLiteral']
+        okc = [f.ref_of(a_[0]), f.ref_of(a_[1])] == [P1, P2] and [x.upper().replace('-', '') for x in lit] == ['UTF8'] and P0 in f.subtree_refs(a_[3]) and (f.ref_of(a_[4]) or '').endswith('conv::stop') and \
+            f.only_through(conv[0], f.gate_edges(lambda atom, pol: bool(tv) and f.ref_of(atom) == tv[0] and pol is False) + f.gate_edges(
+                lambda atom, pol: bool(tv) and f.N(atom)['k'] == 'BinaryOperator' and f.N(atom).get('op') in ('!=', '==') and tv[0] in f.subtree_refs(atom) and f.const_value(f.N(atom)['ch'][1]) == 0 and pol is (f.N(atom)['op'] == '==')))
+    ctx.check(okc, R9, 'valid(name):unregistered-name-converted-to-UTF-8-with-stop', 'the fallback does not convert (begin,end) from the named encoding to UTF-8 with method stop', f.where)
+    second = [i for i in ind if i not in direct]
+    oks = len(second) == 1 and okc
+    if oks:
+        cvar = [d['ref'] for i in f.all_nodes() if f.N(i)['k'] == 'DeclStmt' for d in f.N(i)['decls'] if d.get('init') is not None and f.contains(d['init'], conv[0])]
+        a_ = f.args(second[0])
+        g2 = [j for j in f.walk(f.N(second[0])['ch'][0]) if j in gets]
+        lit = [f.N(j).get('s') for g_ in g2 for j in f.walk(g_) if f.N(j)['k'] == 'StringLiteral']
+        oks = len(cvar) == 1 and len(g2) == 1 and [x.lower().replace('-', '').replace('_', '') for x in lit] == ['utf8'] and f.ref_of(a_[2]) == P3 and \
+            cvar[0] in f.subtree_refs(a_[0]) and any(q.short_of(f.callee(j) or '') in ('c_str', 'data') for j in f.calls(a_[0])) and not any(q.short_of(f.callee(j) or '') in ('size', 'length') for j in f.calls(a_[0])) and \
+            cvar[0] in f.subtree_refs(a_[1]) and any(q.short_of(f.callee(j) or '') in ('size', 'length') for j in f.calls(a_[1])) and any(q.short_of(f.callee(j) or '') in ('c_str', 'data') for j in f.calls(a_[1])) and \
+            any(f.N(i)['k'] == 'ReturnStmt' and f.strip(f.N(i)['ch'][0]) == second[0] for i in f.all_nodes())
+    ctx.check(oks, R9, 'valid(name):converted-text-validated-as-UTF-8-whole', 'the converted text is not validated whole (c_str(), c_str()+size(), count) by the validator registered as utf-8', f.where)
+    tries = [i for i in f.all_nodes() if f.N(i)['k'] == 'CXXTryStmt']
+    okt = len(tries) == 1 and okc and f.contains(tries[0], conv[0])
+    if okt:
+        hs = f.N(tries[0]).get('handlers') or []
+        okt = bool(hs)
+        for h_ in hs:
+            rr = [i for i in f.walk(h_) if f.N(i)['k'] == 'ReturnStmt']
+            okt = okt and bool(rr) and all(f.const_value(f.N(i)['ch'][0]) == 0 for i in rr) and not [i for i in f.walk(h_) if f.N(i)['k'] == 'CXXThrowExpr']
+    ctx.check(okt, R9, 'valid(name):conversion-error-means-invalid', 'a conversion error does not yield false', f.where)
+    # single-byte filter against a summarised validator
+    fsb = [g for g in PE.fns.values() if g.short == 'validate_or_filter_single_byte_charset']
+    ctx.require(len(fsb) == 1, 'C14.R9: validate_or_filter_single_byte_charset not found')
+    fsb = fsb[0]
+    bad = []
+    nrun = 0
+    for L in range(0, 5):
+        for good in _it8.product((True, False), repeat=L):
+            for repl in (0, 0x3F):
+                asked = []
+
+                def tester(it, fn_, i_, env_, good=good, asked=asked, L=L):
+                    a_ = fn_.args(i_)
+                    b_, e_, cl = it.rvalue(fn_, a_[0], env_), it.rvalue(fn_, a_[1], env_), it.lval(fn_, a_[2], env_)
+                    if not (isinstance(b_, PV) and isinstance(e_, PV)) or b_.off < 0 or e_.off > L or b_.off > e_.off:
+                        raise OutOfBounds('the validator is asked about [%s,%s) of an input of %d bytes' % (getattr(b_, 'off', '?'), getattr(e_, 'off', '?'), L))
+                    asked.append((b_.off, e_.off))
+                    it.store(cl, absint.binop('+', it.load(cl), AV.const(e_.off - b_.off)))
+                    return AV.const(1 if all(good[b_.off:e_.off]) else 0)
+                arr = Arr([AV.const(0x61 + k) for k in range(L)] + [AV.const(0)], 'input')
+                o = Out('output')
+                o.items.append(AV.const(0x58))
+                it = absint.Interp(PE, [])
+                rv = it.call_fn(fsb, [FnRef(tester, 'tester'), PV(arr, 0), PV(arr, L), Cell(o), AV.const(repl)])
+                nrun += 1
+                got = [e.lo & 0xFF for e in o.items]
+                want = [0x58] if all(good) else [x for k in range(L) for x in ([0x61 + k] if good[k] else ([repl] if repl else []))]
+                per_byte = [x for x in asked if x != (0, L) or L == 1]
+                if not (isinstance(rv, AV) and rv.is_const() and bool(rv.lo) == all(good)) or got != want:
+                    bad.append('bytes %s repl=%02X: returns %r, output %s, expected %s %s' % (''.join('g' if g_ else 'b' for g_ in good) or '(empty)', repl, rv, bytes(got), all(good), bytes(want)))
+                elif not all(good) and sorted(set(x for x in asked if x[1] - x[0] == 1)) != [(k, k + 1) for k in range(L)]:
+                    bad.append('bytes %s: validator asked about %s' % (''.join('g' if g_ else 'b' for g_ in good), asked))
+            if bad:
+                break
+        if bad:
+            break
+    ctx.check(not bad, R9, 'filter_single_byte:good-bytes-kept-bad-replaced-or-dropped', '; '.join(bad[:2]), fsb.where, detail={'runs': nrun})
+    # name comparison
+    cmpf = [g for g in PE.fns.values() if g.short == 'operator()' and 'encodings_comparator' in g.id and len(g.params) == 2 and all('basic_string' not in (g.types[p_['t']] or '') for p_ in g.params)]
+    ctx.require(len(cmpf) == 1, 'C14.R9: encodings_comparator::operator()(char const*, char const*) not found')
+    alphabet = '09azAZ-_/:@[`{ '
+    names = [''] + list(alphabet) + [x + y for x in 'a9Z-' for y in alphabet] + ['utf8', 'UTF-8', 'Utf_8', 'utf-16', 'utf7', 'u-t-f-8-', 'ISO-8859-1', 'iso88591', 'iso885910', 'latin1', 'LATIN-1']
+    norm = lambda s_: ''.join(c.lower() for c in s_ if c.isascii() and c.isalnum())
+    bad = []
+    ncmp = 0
+    for x in names:
+        for y in names:
+            it = absint.Interp(PE, [])
+            ax, ay = Arr([AV.const(ord(c)) for c in x] + [AV.const(0)], 'l'), Arr([AV.const(ord(c)) for c in y] + [AV.const(0)], 'r')
+            rv = it.call_fn(cmpf[0], [PV(ax, 0), PV(ay, 0)])
+            ncmp += 1
+            if not (isinstance(rv, AV) and rv.is_const() and bool(rv.lo) == (norm(x) < norm(y))):
+                bad.append('%r < %r gives %r, the normalised names are %r and %r' % (x, y, rv, norm(x), norm(y)))
+                break
+        if bad:
+            break
+    ctx.check(not bad, R9, 'encodings_comparator:order-of-normalised-names', '; '.join(bad[:2]), cmpf[0].where, detail={'pairs': ncmp})
+    iu = [g for g in PE.fns.values() if g.short == 'is_utf8' and g.body is not None]
+    ctx.require(len(iu) == 1, 'C14.R9: is_utf8 not found')
+    bad = []
+    for x in ('utf8', 'UTF-8', 'Utf_8', 'u t f 8', 'utf-16', 'utf7', 'utf', 'utf88', '', 'latin1', '8ftu'):
+        it = absint.Interp(PE, [])
+        rv = it.call_fn(iu[0], [PV(Arr([AV.const(ord(c)) for c in x] + [AV.const(0)], 'name'), 0)])
+        if not (isinstance(rv, AV) and rv.is_const() and bool(rv.lo) == (norm(x) == 'utf8')):
+            bad.append('is_utf8(%r) = %r' % (x, rv))
+    ctx.check(not bad, R9, 'is_utf8:exactly-the-spellings-of-utf8', '; '.join(bad[:3]), iu[0].where)
+    vo = PE.fn(ENC + 'validate_or_filter')
+    P0, P1, P2, P3, P4 = [q.param_by_index(vo, k) for k in range(5)]
+    cu_ = [i for i in vo.calls() if q.short_of(vo.callee(i) or '') == 'validate_or_filter_utf8' and [vo.ref_of(x) for x in vo.args(i)] == [P1, P2, P3, P4]]
+    cs_ = [i for i in vo.calls() if q.short_of(vo.callee(i) or '') == 'validate_or_filter_single_byte_charset']
+    g_utf = vo.gate_edges(lambda atom, pol: any(q.short_of(vo.callee(j) or '') == 'is_utf8' for j in ([atom] if vo.N(atom)['k'] == 'CallExpr' else [])) and pol is True)
+    oku = len(cu_) == 1 and bool(g_utf) and vo.only_through(cu_[0], g_utf) and any(vo.N(i)['k'] == 'ReturnStmt' and vo.strip(vo.N(i)['ch'][0]) == cu_[0] for i in vo.all_nodes())
+    ctx.check(oku, R9, 'validate_or_filter:utf8-names-use-the-utf8-filter', 'a UTF-8 name does not return validate_or_filter_utf8(begin,end,output,replace)', vo.where)
+    oks_ = len(cs_) == 1
+    if oks_:
+        a_ = vo.args(cs_[0])
+        tvar = vo.ref_of(a_[0])
+        dd = [d for i in vo.all_nodes() if vo.N(i)['k'] == 'DeclStmt' for d in vo.N(i)['decls'] if d['ref'] == tvar]
+        oks_ = [vo.ref_of(x) for x in a_[1:]] == [P1, P2, P3, P4] and bool(dd) and dd[0].get('init') is not None and \
+            any(q.short_of(vo.callee(j) or '') == 'get' and vo.ref_of(vo.args(j)[0]) == P0 for j in vo.calls(dd[0]['init'])) and \
+            vo.only_through(cs_[0], vo.gate_edges(lambda atom, pol: vo.ref_of(atom) == tvar and pol is True)) and any(vo.N(i)['k'] == 'ReturnStmt' and vo.strip(vo.N(i)['ch'][0]) == cs_[0] for i in vo.all_nodes())
+    ctx.check(oks_, R9, 'validate_or_filter:registered-names-use-their-validator', 'a registered single-byte name is not filtered with the validator registered under that name', vo.where)
+    # generic (conversion based) filter for names that are neither UTF-8 nor registered
+    vcall = [i for i in vo.calls() if vo.N(i).get('callee') == vmain.id]
+    okg = len(vcall) == 1 and [vo.ref_of(x) for x in vo.args(vcall[0])][:3] == [P0, P1, P2]
+    if okg:
+        g_valid = vo.gate_edges(lambda atom, pol: atom == vcall[0] and pol is True)
+        rt = [i for i in vo.all_nodes() if vo.N(i)['k'] == 'ReturnStmt' and vo.const_value(vo.N(i)['ch'][0]) == 1]
+        okg = bool(g_valid) and len(rt) == 1 and vo.only_through(rt[0], g_valid) and not any(P3 in vo.subtree_refs(i) for i in vo.all_nodes() if vo.N(i)['k'] in ('CXXOperatorCallExpr', 'CXXMemberCallExpr') and
+                                                                                           not vo.only_through(i, vo.gate_edges(lambda atom, pol: atom == vcall[0] and pol is False)))
+    ctx.check(okg, R9, 'validate_or_filter:generic:valid-text-returns-true-untouched', 'text that valid(name, ...) accepts is not returned as valid with the output left alone', vo.where)
+    bw = sorted([i for i in vo.calls() if (vo.callee(i) or '').startswith('booster::locale::conv::between')], key=lambda i: (vo.N(i)['l'], vo.N(i)['c']))
+    okb = len(bw) == 2
+    if okb:
+        a1, a2 = vo.args(bw[0]), vo.args(bw[1])
+        lit = lambda e: [vo.N(j).get('s', '').upper().replace('-', '') for j in vo.walk(e) if vo.N(j)['k'] == 'StringLiteral']
+        v1 = [d['ref'] for i in vo.all_nodes() if vo.N(i)['k'] == 'DeclStmt' for d in vo.N(i)['decls'] if d.get('init') is not None and vo.contains(d['init'], bw[0])]
+        fl = [i for i in vo.calls() if q.short_of(vo.callee(i) or '') == 'validate_or_filter_utf8' and i not in cu_]
+        okb = [vo.ref_of(a1[0]), vo.ref_of(a1[1])] == [P1, P2] and lit(a1[2]) == ['UTF8'] and P0 in vo.subtree_refs(a1[3]) and (vo.ref_of(a1[4]) or '').endswith('conv::skip') and len(v1) == 1 and len(fl) == 1 and \
+            P0 in vo.subtree_refs(a2[2]) and lit(a2[3]) == ['UTF8'] and (vo.ref_of(a2[4]) or '').endswith('conv::skip')
+        if okb:
+            fa = vo.args(fl[0])
+            outv = vo.ref_of(fa[2])
+            okb = (vo.const_value(fa[3]) == 0 or vo.ref_of(fa[3]) == P4) and v1[0] in vo.subtree_refs(fa[0]) and v1[0] in vo.subtree_refs(fa[1]) and any(q.short_of(vo.callee(j) or '') in ('size', 'length') for j in vo.calls(fa[1])) and (outv or '').startswith('v:') and \
+                outv in vo.subtree_refs(a2[0]) and outv in vo.subtree_refs(a2[1]) and any(q.short_of(vo.callee(j) or '') in ('size', 'length') for j in vo.calls(a2[1])) and not any(q.short_of(vo.callee(j) or '') in ('size', 'length') for j in vo.calls(a2[0]))
+            sw = [i for i in vo.calls() if q.short_of(vo.callee(i) or '') in ('swap', 'operator=', 'assign') and {outv, v1[0]} <= set(vo.subtree_refs(i))]
+            okb = okb and len(sw) == 1 and vo.only_through(sw[0], vo.gate_edges(lambda atom, pol: atom == fl[0] and pol is True)) and q.before(vo, fl[0], bw[1]) and q.reaches(vo, sw[0], bw[1])
+            asg = [i for i in vo.all_nodes() if vo.N(i)['k'] in ('CXXOperatorCallExpr', 'CXXMemberCallExpr') and q.short_of(vo.callee(i) or '') in ('operator=', 'assign', 'swap') and P3 in vo.subtree_refs(i) and vo.contains(i, bw[1])]
+            rf_ = [i for i in vo.all_nodes() if vo.N(i)['k'] == 'ReturnStmt' and vo.const_value(vo.N(i)['ch'][0]) == 0]
+            okb = okb and len(asg) == 1 and bool(rf_) and all(q.before(vo, asg[0], i) for i in rf_ if vo.point_of(i) is not None)
+    ctx.check(okb, R9, 'validate_or_filter:generic:to-UTF-8(skip)-filter-back(skip)-into-output', 'the conversion based filter does not convert to UTF-8 with skip, filter the whole converted text, convert the filtered (or already valid) text back with skip '
+              'into the output and return false', vo.where)
+    ctx.floor(R9, 13)
+
+    # ---------------- R8 the UTF-8 string validators are "every code point decodes": the loop around next(), with next() summarised
+    R8 = ctx.rule('C14.R8', 'UTF-8 string validators (utf8::validate both overloads, utf8_valid): with next() replaced by a scripted summary (units of 1-4 bytes, well- or ill-formed), '
+                            'for every script of total length <= 6 the decoder is asked exactly once per unit, in order, at the unit boundary, with the caller\'s end and html mode; the verdict is true iff every unit '
+                            'decoded and the whole range was consumed; the count grows by one per code point')
+    scripts = []
+
+    def gen(prefix, total):
+        scripts.append(list(prefix))
+        if total >= 6 or (prefix and not prefix[-1][1]):
+            return
+        for ln in (1, 2, 3, 4):
+            if total + ln <= 6:
+                for okv in (True, False):
+                    gen(prefix + [(ln, okv)], total + ln)
+    gen([], 0)
+    targets = [(f, None) for f in sorted(P.by_bname.get('cppcms::utf8::validate', []), key=lambda g: g.id)] + [(f, 1) for f in P.by_bname.get('cppcms::encoding::utf8_valid', [])]
+    ctx.require(len(targets) >= 3, 'C14.R8: utf8::validate (two overloads) / utf8_valid instantiations not found (%d)' % len(targets))
+    for (fn, fixed_html) in targets:
+        with_count = any('size_t' in (fn.types[p_['t']] or '') or 'unsigned long' in (fn.types[p_['t']] or '') for p_ in fn.params)
+        has_html = any((fn.types[p_['t']] or '').strip() in ('bool', '_Bool') for p_ in fn.params)
+        bad = []
+        nrun = 0
+        for sc in scripts:
+            for html in ((0, 1) if has_html else (fixed_html,)):
+                N = sum(l_ for l_, _ in sc)
+                bounds = {}
+                o_ = 0
+                for (l_, okv) in sc:
+                    bounds[o_] = (l_, okv)
+                    o_ += l_
+                calls = []
+                arr = Arr([AV.const(0x41)] * N, 'input')
+
+                def hook(it, f_, i_, env_, bounds=bounds, calls=calls, arr=arr, N=N):
+                    a_ = f_.args(i_)
+                    pl = it.lval_or_tmp(f_, a_[0], env_)
+                    p_ = it.load(pl) if not isinstance(pl, Cell) else pl.v
+                    e_ = it.rvalue(f_, a_[1], env_)
+                    h_ = it.rvalue(f_, a_[2], env_) if len(a_) > 2 else AV.const(0)
+                    if not (isinstance(p_, PV) and isinstance(e_, PV) and p_.arr is arr and e_.arr is arr):
+                        raise Unsupported('next() called on something that is not the validated range')
+                    calls.append((p_.off, e_.off, h_.lo if isinstance(h_, AV) and h_.is_const() else None))
+                    l_, okv = bounds.get(p_.off, (1, False))
+                    it.store(pl, PV(arr, min(N, p_.off + l_)))
+                    return AV.const(0x41) if okv else AV.const(ILLEGAL)
+                it = absint.Interp(P, [], hooks={'cppcms::utf8::next': hook})
+                cnt = Cell(AV.const(10))
+                args = [PV(arr, 0), PV(arr, N)] + ([cnt] if with_count else []) + ([AV.const(html)] if has_html else [])
+                r = it.call_fn(fn, args)
+                nrun += 1
+                allok = all(okv for _, okv in sc)
+                firstbad = next((k for k, (_, okv) in enumerate(sc) if not okv), len(sc))
+                want_calls = []
+                o_ = 0
+                for k, (l_, okv) in enumerate(sc[:firstbad + 1]):
+                    want_calls.append((o_, N, html))
+                    o_ += l_
+                why = None
+                if not (isinstance(r, AV) and r.is_const() and bool(r.lo) == allok):
+                    why = 'verdict %r, expected %s' % (r, allok)
+                elif calls != want_calls:
+                    why = 'decoder calls (offset, end, html) %s, expected %s' % (calls[:4], want_calls[:4])
+                elif with_count and allok and not (cnt.v.is_const() and cnt.v.lo == 10 + len(sc)):
+                    why = 'count grows by %s for %d code points' % (cnt.v.lo - 10 if cnt.v.is_const() else cnt.v, len(sc))
+                if why:
+                    bad.append('units %s%s: %s' % (''.join('%d%s' % (l_, '' if okv else '!') for l_, okv in sc) or '(empty)', ' html' if html else '', why))
+                    break
+        ctx.check(not bad, R8, '%s(%s):one-decode-per-unit:verdict:count' % (fn.short, 'count' if with_count else 'plain'), '; '.join(bad[:2]), fn.where, detail={'scripts': nrun})
+    ctx.floor(R8, 3)
+
 
 def _ranges(vs):
     out, start, prev = [], None, None
@@ -518,6 +772,26 @@ def _ranges(vs):
     if start is not None:
         out.append('%02X-%02X' % (start, prev))
     return ' '.join(out)
+
+
+_CODE_PAGES = {'ascii_valid': ['ascii'], 'iso_8859_3_valid': ['iso8859_3'], 'iso_8859_6_valid': ['iso8859_6'], 'iso_8859_7_valid': ['iso8859_7'], 'iso_8859_8_valid': ['iso8859_8'],
+               'iso_8859_11_valid': ['iso8859_11'], 'iso_8859_1_2_4_5_9_10_13_14_15_16_valid': ['iso8859_%d' % k for k in (1, 2, 4, 5, 9, 10, 13, 14, 15, 16)],
+               'koi8_valid': ['koi8_r', 'koi8_u'], **{'windows_125%d_valid' % k: ['cp125%d' % k] for k in range(9)}}
+
+
+def _defined_text_bytes(codec):
+    """reference, independent of the analysed source: bytes that the code page (Python's codec table) maps to a character that is not a control
+    (Unicode category Cc), plus TAB / LF / CR"""
+    import unicodedata
+    out = set()
+    for v in range(256):
+        try:
+            ch = bytes([v]).decode(codec)
+        except UnicodeDecodeError:
+            continue
+        if unicodedata.category(ch) != 'Cc' or v in (9, 10, 13):
+            out.add(v)
+    return out
 
 
 def _name_matches(name, fname):
